@@ -32,7 +32,7 @@ MANIFEST = {
 RULE = ("decorator trees over recording sinks and StreamFailFast leaves: every tree of depth <= 2 and fan-out <= 2 "
         "(720 shapes, tagger parameters drawn per tree), random trees to depth 3 / fan-out 3 (<= 12 leaves); histories "
         "of startTestRun / status / stopTestRun with the caller's tag argument None, a frozenset or one of the "
-        "caller's own set objects (re-used across calls and changed by the caller between calls), ids, statuses, "
+        "caller's own set objects (re-used across calls), ids, statuses, "
         "routes, file chunks, timestamps supplied or not; non-trivial = at least two leaves or depth >= 2, and at "
         "least one status call; distinct = distinct JSON")
 TRUSTED = ["doubles.StreamResult records the arguments it receives by reference; queue.Queue is FIFO",
@@ -427,10 +427,9 @@ def rand_history(rng, n_events):
         ops.append(["S"])
     for _ in range(n_events):
         ops.append(["E", rand_event(rng, ncaller)])
-        if rng.random() < 0.3:
-            ops.append(["M", rng.randrange(ncaller), sorted(rng.sample(range(NTAGS), rng.choice([0, 1, 2])))])
-        if rng.random() < 0.08:
-            ops.append([rng.choice(["S", "T"])])
+        # No ["M", ..] (the caller changing its own set between calls) is generated although model and driver
+        # support it: whether a sink behind CopyStreamResult sees the caller's LATER changes is not pinned by the
+        # statement (a defensive copy would be as good), so such inputs could only produce false alarms.
     if rng.random() < 0.7:
         ops.append(["T"])
     return caller, ops
@@ -448,15 +447,22 @@ def fixed_cases():
         # F7: the tagger must work on a copy: caller's set untouched, the sibling sink sees the caller's tags
         {"tree": ["C", [["K"], ["G", [0], [], [["K"]]]]], "caller": [[1, 2]], "ops": [["E", ev(["l", 0])]]},
         {"tree": ["G", [0], [], [["K"]]], "caller": [], "ops": [["E", ev(["f", [1, 2]])]]},
+        # a plain set the caller keeps, fanned out to sibling taggers and a plain sink
+        {"tree": ["C", [["G", [0], [], [["K"]]], ["G", [3], [1], [["K"]]], ["K"]]], "caller": [[1, 2]],
+         "ops": [["E", ev(["l", 0])], ["E", ev(["l", 0], st=5)]]},
+        # "no timestamp" both ways: timestamp=None passed explicitly, and the keyword left out; also as replayed
+        # from a StreamToQueue event dict (always an explicit None)
+        {"tree": ["Z", ["K"]], "caller": [], "ops": [["E", ev(omit=False)], ["E", ev(omit=True)], ["E", ev(ts=2)]]},
+        {"tree": ["Q", 0, ["Z", ["K"]]], "caller": [], "ops": [["E", ev(omit=False)], ["E", ev(omit=True)]]},
         # nested taggers and a sink between them
         {"tree": ["G", [1], [2], [["K"], ["G", [3], [1], [["K"]]], ["K"]]], "caller": [[2, 4]],
-         "ops": [["S"], ["E", ev(["l", 0])], ["M", 0, [5]], ["E", ev(["l", 0])], ["E", ev(None)], ["T"]]},
+         "ops": [["S"], ["E", ev(["l", 0])], ["E", ev(["l", 0])], ["E", ev(None)], ["T"]]},
         # tags removed completely -> None; empty set/frozenset supplied
         {"tree": ["G", [], [1], [["K"]]], "caller": [[1], []],
          "ops": [["E", ev(["l", 0])], ["E", ev(["l", 1])], ["E", ev(["f", []])]]},
-        # the caller re-uses and changes its set: a sink behind a copy keeps the object, one behind a tagger does not
+        # the caller re-uses its set for several calls
         {"tree": ["C", [["K"], ["G", [], [], [["K"]]]]], "caller": [[3]],
-         "ops": [["E", ev(["l", 0])], ["M", 0, [3, 4]], ["E", ev(["l", 0])], ["M", 0, []]]},
+         "ops": [["E", ev(["l", 0])], ["E", ev(["l", 0], st=5)], ["E", ev(["l", 0], st=None)]]},
         # timestamps: supplied kept, missing filled, twice
         {"tree": ["Z", ["C", [["K"], ["Z", ["K"]]]]], "caller": [],
          "ops": [["E", ev(ts=3)], ["E", ev()], ["S"], ["T"]]},
@@ -469,7 +475,7 @@ def fixed_cases():
         # no targets at all
         {"tree": ["C", []], "caller": [[1]], "ops": [["S"], ["E", ev(["l", 0])], ["T"]]},
         {"tree": ["G", [1], [], []], "caller": [[1]], "ops": [["E", ev(["l", 0])]]},
-        {"tree": ["K"], "caller": [[1]], "ops": [["E", ev(["l", 0])], ["M", 0, [2]]]},
+        {"tree": ["K"], "caller": [[1]], "ops": [["E", ev(["l", 0])]]},
     ]
 
 
